@@ -79,8 +79,38 @@ def _case(draw, tier):
         if kind == "subdiv":
             mesh = meshgen.subdivide_edges(draw, mesh)
     c = {"mesh": mesh, "access": draw(st.permutations([0, 1, 2, 3, 4, 5])), "source": source}
+    # history: operations that only read the incidence tables (differences, gradients, aggregations, the dual, a
+    # subset), run before the tables are first read or between two reads; the tables judged are those read last
+    c["ops"] = draw(st.lists(st.sampled_from(OPS), max_size=3))
+    c["ops_first"] = draw(st.booleans())
     c.update(extra)
     return c
+
+
+OPS = ["gradient", "difference_face", "difference_node", "topological_mean_face", "topological_mean_edge", "integrate", "get_dual", "isel_face"]
+
+
+def _run_op(ux, g, op, mesh):
+    nf, nn = g.n_face, g.n_node
+    fda = ux.UxDataArray(np.arange(nf, dtype=float) * 1.5, dims=["n_face"], uxgrid=g, name="f")
+    nda = ux.UxDataArray(np.arange(nn, dtype=float) - 2.0, dims=["n_node"], uxgrid=g, name="n")
+    if op == "gradient":
+        fda.gradient()
+    elif op == "difference_face":
+        fda.difference(destination="edge")
+    elif op == "difference_node":
+        nda.difference(destination="edge")
+    elif op == "topological_mean_face":
+        nda.topological_mean(destination="face")
+    elif op == "topological_mean_edge":
+        nda.topological_mean(destination="edge")
+    elif op == "integrate":
+        fda.integrate()
+    elif op == "get_dual":
+        if refmodel.is_closed(mesh["faces"]):
+            g.get_dual()
+    elif op == "isel_face":
+        fda.isel(n_face=[0, nf - 1] if nf > 1 else [0])
 
 
 def strategy(tier, excl):
@@ -105,6 +135,8 @@ def classify(case):
         if case.get("opened_before"):
             labs.append("same-dataset-opened-before")
         labs.append("int:" + case.get("int_dtype", "int32"))
+    for op in case.get("ops") or []:
+        labs.append("history-op:" + op)
     boundary = not refmodel.is_closed(faces)
     return labs, (boundary or iso or mv >= 5 or case["source"] != "topology")
 
@@ -133,10 +165,22 @@ def run_case(case, ctx):
     g, info = _build(case, ctx)
     site = case["source"]
     got = {}
-    for k in case["access"]:
-        name = ACCESS[k]
-        v = getattr(g, name)
-        got[name] = np.array(v.values) if hasattr(v, "values") else v
+    ops = case.get("ops") or []
+    if ops and case.get("ops_first"):
+        for op in ops:
+            _run_op(build.ux(), g, op, mesh)
+    for rnd in range(2):
+        for k in case["access"]:
+            name = ACCESS[k]
+            v = getattr(g, name)
+            got[name] = np.array(v.values) if hasattr(v, "values") else v
+        if rnd == 0 and ops and not case.get("ops_first"):
+            for op in ops:
+                _run_op(build.ux(), g, op, mesh)
+        else:
+            break
+    if ops:
+        site += ":after-" + ("ops" if case.get("ops_first") else "read-ops-read")
     fails = []
 
     def bad(oracle, kind, detail):
